@@ -72,6 +72,11 @@ From Coq Require String.
 Import String.StringSyntax.
 Delimit Scope string_scope with string.
 Theorem serve_source_shape :
+  (* the goroutines behind the shared listeners give up only when the socket is closed or the last
+     handle has gone: a transient accept / read error never stops them *)
+  Gen.Consts.shared_listener_loop_exits =
+    ["multiPacketListener: return if select <-m.doneCh"; "multiStreamListener: return if errors.Is(err, net.ErrClosed)";
+     "multiStreamListener: return if select <-doneCh"]%string /\
   Gen.Consts.serve_defers = ["running.Wait()"; "contextCancel()"]%string /\
   Gen.Consts.serve_loop_exits = ["break if err != nil && errors.Is(err, net.ErrClosed)"]%string /\
   Gen.Consts.serve_handler_defers = ["running.Done()"; "clientConn.Close()"; "recover"]%string /\
